@@ -89,8 +89,8 @@ def main():
         "generator checks/C01.py, judge checks/C16.py (python3)",
     ]
     chk.assumptions += [
-        "unencoded RAW files only: the codec size methods (gzip trailer, bzip2/lzma full decompression, SIE last record, ASCII) are not covered here",
-        "extents queried on a handle that has not written (agreement immediately after appends is not covered)",
+        "RAW leaves are stored unencoded, gzip, bzip2, lzma or text (so gd_eof/gd_nframes go through those codecs' size methods); SIE/flac/slim/zzip are not covered; the model sees decoded samples (decoding itself is C02/C04's subject)",
+        "agreement immediately after appends through the same handle is probed directly on the library (raw, text, gzip; RAW, PHASE and MULTIPLY fields) against arithmetic expectations, not modelled in Coq",
         "real-valued data; no representation suffixes in the model (the .i suffix is probed directly on the library)",
         "the double comparison ds1/spf1 > ds/spf in _GD_GetBOF is taken as exact",
     ]
@@ -243,6 +243,53 @@ def main():
                  {"kind": "imag-repr", "format": "a RAW FLOAT64 1 (30 samples)", "calls": ["G a.i 9 100 5", "G a.i 9 28 5"], "output": L[:5]})
     except (IndexError, ValueError):
         chk.violation("harness", "imaginary-part probe failed: %r" % out[:300], {"kind": "harness"}, found=False)
+
+    # --- direct probe: extents immediately after appends through the same handle
+    st["append_probes"] = 0
+    for enc, ext in (("none", ""), ("text", ".txt"), ("gzip", ".gz")):
+        for spf, fo, n0 in ((3, 2, 7), (1, 0, 0), (5, 1, 10)):
+            pd = os.path.join(root, "app-%s-%d" % (enc, spf))
+            os.makedirs(pd)
+            with open(os.path.join(pd, "format"), "w") as fh:
+                fh.write("/ENCODING %s\n/ENDIAN little\n/FRAMEOFFSET %d\nr RAW FLOAT64 %d\np PHASE r 2\nm MULTIPLY r r\n/REFERENCE r\n" % (enc, fo, spf))
+            vals = [float(i) for i in range(n0)]
+            if enc == "text":
+                data = "".join("%r\n" % v for v in vals).encode()
+            else:
+                data = b"".join(struct.pack("<d", v) for v in vals)
+                if enc == "gzip":
+                    import gzip
+                    data = gzip.compress(data)
+            with open(os.path.join(pd, "r" + ext), "wb") as fh:
+                fh.write(data)
+            e0 = fo * spf + n0
+            k1, k2 = 5, 4
+            cmds = ["W %s" % pd, "E r", "N", "P r %d %d" % (e0, k1), "E r", "N", "G r 9 %d 100" % (e0 - 1 if e0 else 0), "E p", "E m",
+                    "P r %d %d" % (e0 + k1, k2), "E r", "N", "G m 9 0 1000", "C"]
+            rc, out = G.run_stream([exe], "\n".join(cmds) + "\n", env=G.HENV)
+            L = [l for l in out.split("\n") if l]
+            e1, e2 = e0 + k1, e0 + k1 + k2
+            want = ["W 0", None, "N %d" % (n0 // spf + fo), "P 0 %d" % k1, None, "N %d" % ((n0 + k1) // spf + fo),
+                    None, None, None, "P 0 %d" % k2, None, "N %d" % ((n0 + k1 + k2) // spf + fo), None, "C"]
+            wantE = {1: e0, 4: e1, 7: max(0, e1 - 2), 8: e1, 10: e2}
+            wantG = {6: e1 - (e0 - 1 if e0 else 0), 12: e2}
+            bad = []
+            if len(L) != len(cmds):
+                bad.append("harness output truncated: %r" % L[-2:])
+            else:
+                for i, l in enumerate(L):
+                    if want[i] is not None and l != want[i]:
+                        bad.append("%s -> %s (expected %s)" % (cmds[i], l, want[i]))
+                    if i in wantE and (parse_E_impl(l) or {}).get("eof") != wantE[i]:
+                        bad.append("%s -> %s (expected eof %d)" % (cmds[i], l, wantE[i]))
+                    if i in wantG and int(l.split()[2]) != wantG[i]:
+                        bad.append("%s -> count %s (expected %d)" % (cmds[i], l.split()[2], wantG[i]))
+            st["append_probes"] += 1
+            if enc == "gzip" and L and len(L) > 3 and L[3].startswith("P -"):
+                continue          # writing this encoding is not supported by the build: nothing to compare
+            if bad:
+                viol("extents/after-append/%s" % enc, "extents right after gd_putdata through the same handle (%s encoding, spf %d, frame offset %d, %d samples): %s" % (
+                    enc, spf, fo, n0, "; ".join(bad[:4])), {"kind": "append", "format": open(os.path.join(pd, "format")).read(), "commands": cmds, "output": L})
 
     chk.cov["evaluations"] = st["queries"] + st["fields"]
     chk.cov["distinct_nontrivial"] = len([s for s in st["sigs"] if s[3] > 0 or s[2] > 0])
